@@ -22,10 +22,10 @@ RULE += "  Also: header keywords that are the parser's own words (struct, enum, 
 ASSUMPTIONS = [
     'texts the format cannot express are not generated: double quote, leading {, } inside string-array elements, {{}}-like '
     'substring (the format notation for the empty string), backslash ending the last column or a header value, non-ASCII, NUL, '
-    'whitespace other than blank/tab inside strings; header values without #, newline, leading/trailing blanks',
+    'line ends (CR, LF) inside strings - form feed, vertical tab and the FS/RS separators ARE generated; header values without #, newline, leading/trailing blanks',
     'header keywords are identifiers that differ case-insensitively from all structure names',
     'column names are identifiers other than the C type keywords of the format',
-    'enum columns hold labels of their enum; an enum column name is unique in the file (the writer keys enums by column name)',
+    'enum columns hold labels of their enum; the name of an enum column is not used by another string column of the file (the writer keys enums by column name; numeric columns may share it)',
 ]
 
 
@@ -56,6 +56,14 @@ def ndarray_request(draw):
         if cand.upper() not in {n.upper() for n in names}:
             tables[0]['name'] = cand
     Y.fix_enums(tables)
+    # a numeric column in another table may carry the name of an enum column (e.g. `state` as label here, as a count there)
+    for i, t in enumerate(tables):
+        for c in t['cols']:
+            if c['kind'] == 'E' and nt > 1 and draw(st.booleans()):
+                other = tables[(i + 1) % nt]
+                cand = [d for d in other['cols'] if d['kind'] in ('i2', 'i4', 'i8', 'f4', 'f8')]
+                if cand and c['name'] not in [d['name'] for d in other['cols']]:
+                    cand[0]['name'] = c['name']
     Y.fix_last_column(tables)
     hdr = draw(header([t['name'] for t in tables]))
     return dict(tables=tables, hdr=hdr, byteorder=draw(st.sampled_from(['<', '<', '>'])),
